@@ -38,10 +38,12 @@ def Coord.toQ : Coord → Q
   | .dec d .rad => ⟨d.val, .rad, true⟩            -- `'rad' in s`: `Angle(s)`
   | .dec d .deg => ⟨d.val, .deg, true⟩
   | .dec d .bare => ⟨d.val, .deg, true⟩           -- `Angle(s, u.deg)`
-  | .hms n h m s => ⟨sexa n h m s, .hour, true⟩   -- `'h' in s`: `Angle(s)`
-  | .dms n d m s => ⟨sexa n d m s, .deg, true⟩
-  | .colon n h m s => ⟨sexa n h m s, .hour, true⟩ -- two colons: hours
-  | .dots n d m s => ⟨sexa n d m s, .deg, true⟩   -- three or more dot-separated fields: degrees
+  | .hms n h m s _ => ⟨sexa n h m s, .hour, true⟩   -- `'h' in s`: `Angle(s)`
+  | .dms n d m s _ => ⟨sexa n d m s, .deg, true⟩
+  | .colon n h m s _ => ⟨sexa n h m s, .hour, true⟩ -- two colons: hours
+  | .dots n d m s _ => ⟨sexa n d m s, .deg, true⟩   -- three or more dot-separated fields: degrees
+  | .hm n h m _ => ⟨sexa n h m ⟨false, 0, 0⟩, .hour, true⟩
+  | .dm n d m _ => ⟨sexa n d m ⟨false, 0, 0⟩, .deg, true⟩
 
 /-- `_CRTFCoordinateParser.parse_angular_length_quantity`: a unit is REQUIRED; a unit
 that is not in `unit_mapping` is dropped (dimensionless). -/
